@@ -49,14 +49,17 @@ CLAIMED = {
  "C05": P("Lean theorems over a model of VersionRange.from_string / __str__ / to_dict / VersionConstraint.split: registry_complete and "
           "registry_sound decided over the regenerated registry and class tables; fromString_toString and toString_fromString_canonical for every "
           "registered scheme and every constraint list with delimiter-free version texts; version order of the printed constraints through "
-          "sortCons_of_wf. 'alpine' was missing from the registry on the unchanged tree (F14, repaired).",
+          "sortCons_of_wf. 'alpine' was missing from the registry on the unchanged tree (F14, repaired). FUNCTION TIE: remove_spaces, VersionConstraint.split / from_string / "
+          "__str__ / to_dict and VersionRange.from_string (with its flags) are translated from the Python source on every run and proved equal to the model "
+          "functions (py_remove_spaces_eq, vc_split_eq, vc_from_string_eq, vc_str_eq, vc_to_dict_eq, vr_from_string_eq).",
           "mkVer (the version class) is a parameter of the text theorems, instantiated by the Layer-A models in the driver. Correspondence: generated, "
           "decorated and mutated vers strings for all schemes; object round trip for every range class.",
           "§7 C05", "Lean 4 proof (string split/join lemmas, decide over regenerated tables) + correspondence"),
  "C06": P("Per ecosystem, Lean exactness theorems: the model of from_native on every rendering of an expression of the fragment yields exactly the "
           "documented desugaring (npm caret/tilde/x-range/hyphen, gem ~>, PEP 440 clauses, Maven/NuGet brackets, Conan tilde/caret, Debian/RPM "
           "relations, nginx dash and plus forms, openssl lists), plus soundness against the in-repo matcher for gem and maven. Membership "
-          "equality with the ecosystems' own matchers is additionally checked on the real code with release probes around every bound.",
+          "equality with the ecosystems' own matchers is additionally checked on the real code with release probes around every bound, and for deb / rpm relations "
+          "over ANY version of the scheme against the order of the scheme's Lean model (dpkg's / rpmvercmp's order, tied to the code by C03).",
           "PARTIAL: the text-to-AST step of the third-party parsers (semantic_version.NpmSpec, packaging SpecifierSet) is modelled and tied by "
           "correspondence only; the fidelity of third-party matchers to the ecosystems is trusted. Known: maven soft requirement '1.0' gives vers:maven/None (K07).",
           "§7 C06", "Lean 4 proof on the AST fragment + correspondence + native-matcher oracle on the real code"),
@@ -103,7 +106,8 @@ CLAIMED = {
           "§7 C12", "Lean 4 proof (hash key invariance under the scheme's equivalence) + decide over the class table + correspondence"),
  "C13": P("Lean theorems: canonical_perm (any permutation of a well-formed constraint list builds the same range), text_whitespace / text_case / "
           "text_bars / text_presentation for the vers parser (every text, resp. every spelling of an expression), and hash_seed_independent "
-          "(the set iteration order inside simplify is an arbitrary permutation parameter: every seed). F13 repaired.",
+          "(the set iteration order inside simplify is an arbitrary permutation parameter: every seed). F13, F33 repaired. FUNCTION TIE: the text functions of "
+          "version_constraint.py and VersionRange.from_string are translated from the Python source on every run and proved equal to the model functions (as for C05).",
           "The configuration quantifier (hash seed) is discharged by the permutation parameter; additionally one workload is run in sub-processes "
           "under 4 (quick) / 16 (thorough) PYTHONHASHSEED values and compared byte for byte.",
           "§7 C13", "Lean 4 proof + correspondence + hash-seed sub-processes"),
@@ -115,7 +119,10 @@ CLAIMED = {
           "§7 C14", "Lean 4 proof by kernel decision over the regenerated class table + exhaustive class-matrix correspondence"),
  "C15": P("Lean theorems over models of the GitHub, Snyk (comma, space, bracket) and GitLab converters, table-driven by the comparator dicts and "
           "scheme tables regenerated from /repo: github_exact, snyk_exact, gitlab_exact (parse of every rendering of an expression = exactly the "
-          "stated constraints), notations_agree, split_req_order_ok over all comparator dicts (dict order cannot shadow a comparator; F21 F24 repaired).",
+          "stated constraints), notations_agree, split_req_order_ok over all comparator dicts (dict order cannot shadow a comparator; F21 F24 repaired). "
+          "FUNCTION TIE: split_req, split_req_bracket_notation, build_constraint_from_github_advisory_string, build_range_from_github_advisory_constraint and "
+          "build_range_from_snyk_advisory_string are translated from the Python source on every run and proved equal, on ASCII text, to the model functions "
+          "(py_split_req_eq, py_split_req_bracket_eq, py_github_constraint_eq, py_github_range_eq, py_snyk_range_eq).",
           "Version texts must not begin with a comparator character (the proof forces it; it is the property's domain). Oracle on the real code: one "
           "logical range rendered in every notation and as vers must give equal ranges.",
           "§7 C15", "Lean 4 proof (render/parse inverse) + decide over regenerated tables + correspondence"),
